@@ -228,7 +228,7 @@ def network(draw, max_species=10, max_reactions=12, thermal=True, modifiers=Fals
             if ndep >= 2 and draw(st.integers(0, 2)) == 0:
                 deps[1] = deps[0]
             fact = draw(st.sampled_from(["-2.0 * nH", "0.5*zeta", "1.0e-17", "-3.0", "nH * 2.0 - 1.0", "Tgas/300.0", "-nH + 0.5 * zeta", "-2.0 * nH - zeta", "-(nH - zeta) * 0.5"]))
-            case["ode_mod"].append({"target": tgt, "factor": fact, "deps": deps})
+            case["ode_mod"].append({"target": tgt, "factor": fact, "deps": deps, "ealt": draw(st.integers(0, 2)) == 0})
     return case
 
 
